@@ -46,6 +46,15 @@ EstimatorStep(pre, ev) ==
 PolicyStep(pre, ev) ==
   IF ev.panic THEN FALSE
   ELSE IF ~WWellFormed(StOf(pre)) THEN TRUE
+  \* clone mode: the copy is in the same abstract state and takes the same step
+  ELSE IF ev.op = "clone" THEN ("unsupported" \in DOMAIN ev) \/ (StOf(ev.obs) = StOf(pre) /\ StOf(ev.obs2) = StOf(pre))
+  ELSE IF ev.op = "both"
+       THEN LET e2 == [ev EXCEPT !.op = ev.op2] IN
+            IF ev.op2 \in SpecOps
+            THEN LET x == WApply(e2, StOf(pre), AdmObs(pre, StOf(pre))) IN
+                 x.st = StOf(ev.obs) /\ x.st = StOf(ev.obs2) /\ x.ret = ev.ret /\ x.ret = ev.ret2
+            ELSE StOf(ev.obs) = StOf(pre) /\ StOf(ev.obs2) = StOf(pre)
+  ELSE IF ev.op \in {"clone_only", "clone_dropped"} THEN StOf(ev.obs) = StOf(pre)
   ELSE /\ EstimatorStep(pre, ev)
        /\ IF ev.op \in SpecOps
           THEN LET x == WApply(ev, StOf(pre), AdmObs(pre, StOf(pre))) IN x.st = StOf(ev.obs) /\ x.ret = ev.ret
